@@ -266,7 +266,8 @@ pub struct TypedCase {
     pub public: bool,
     pub key: KeySeed,
     /// 0: Json<Value> payload + () footer, 1: Json<Value> payload + Json<Value> footer,
-    /// 2: RegisteredClaims payload + Json<struct> footer, 3: Json<Value> payload + Vec<u8> footer
+    /// 2: RegisteredClaims payload + Json<struct> footer, 3: Json<Value> payload + Vec<u8> footer,
+    /// 4: Json<HashMap> payload + Json<HashMap> footer (non-deterministic member order)
     pub shape: u8,
     pub text: String,
     pub n: i64,
@@ -316,16 +317,21 @@ fn typed_case<B: Backend>(c: &TypedCase, acc: &mut Acc) -> R {
         iat: paseto_json::jiff::Timestamp::new(0, 1).ok(),
         jti: Some("\u{0}\"\\".to_string()),
     };
+    let hm_payload = || (0..12i64).map(|i| (format!("k{i}-{}", c.n), i ^ c.n)).collect::<std::collections::HashMap<String, i64>>();
+    let hm_footer = || (0..12i64).map(|i| (format!("f{i}"), format!("{}{i}", c.text.chars().take(8).collect::<String>()))).collect::<std::collections::HashMap<String, String>>();
     macro_rules! go {
         ($P:ty, $sk:expr, $uk:expr) => {
-            match c.shape % 4 {
+            match c.shape % 5 {
                 0 => typed_roundtrip::<B, $P, Json<serde_json::Value>, ()>(c, &$sk, &$uk, || Json(val.clone()), || (), |a, _| a.0 == val),
                 1 => typed_roundtrip::<B, $P, Json<serde_json::Value>, Json<serde_json::Value>>(c, &$sk, &$uk, || Json(val.clone()), || Json(fval.clone()), |a, f| a.0 == val && f.0 == fval),
                 2 => typed_roundtrip::<B, $P, RegisteredClaims, Json<Kid>>(c, &$sk, &$uk, || claims.clone(), || Json(Kid { kid: c.text.clone(), n: c.n }), |a, f| {
                     let b = &claims;
                     a.iss == b.iss && a.sub == b.sub && a.aud == b.aud && a.exp == b.exp && a.nbf == b.nbf && a.iat == b.iat && a.jti == b.jti && f.0 == Kid { kid: c.text.clone(), n: c.n }
                 }),
-                _ => typed_roundtrip::<B, $P, Json<serde_json::Value>, Vec<u8>>(c, &$sk, &$uk, || Json(val.clone()), || c.text.as_bytes().to_vec(), |a, f| a.0 == val && f == c.text.as_bytes()),
+                3 => typed_roundtrip::<B, $P, Json<serde_json::Value>, Vec<u8>>(c, &$sk, &$uk, || Json(val.clone()), || c.text.as_bytes().to_vec(), |a, f| a.0 == val && f == c.text.as_bytes()),
+                // a footer / payload whose serialisation is not deterministic: every HashMap instance has
+                // its own iteration order, so encode(decode(bytes)) != bytes in general
+                _ => typed_roundtrip::<B, $P, Json<std::collections::HashMap<String, i64>>, Json<std::collections::HashMap<String, String>>>(c, &$sk, &$uk, || Json(hm_payload()), || Json(hm_footer()), |a, f| a.0 == hm_payload() && f.0 == hm_footer()),
             }
         };
     }
@@ -339,11 +345,11 @@ fn typed_case<B: Backend>(c: &TypedCase, acc: &mut Acc) -> R {
     };
     r?;
     acc.eval();
-    acc.nt(hash_of(&(c.public, &c.key, c.shape % 4, &c.text, c.n)));
+    acc.nt(hash_of(&(c.public, &c.key, c.shape % 5, &c.text, c.n)));
     if c.text.len() > 8000 {
         acc.class("typed:text>8000-bytes");
     }
-    acc.class(["typed:Json+unit-footer", "typed:Json+Json-footer", "typed:RegisteredClaims+Json<struct>-footer", "typed:Json+bytes-footer"][(c.shape % 4) as usize]);
+    acc.class(["typed:Json+unit-footer", "typed:Json+Json-footer", "typed:RegisteredClaims+Json<struct>-footer", "typed:Json+bytes-footer", "typed:Json<HashMap>+Json<HashMap>-footer"][(c.shape % 5) as usize]);
     Ok(())
 }
 
@@ -358,7 +364,7 @@ fn typed_subs_for<B: Backend>(out: &mut Vec<SubCheck>) {
         4,
         cases,
         |_t| {
-            (any::<bool>(), gen_::key_seed(), 0u8..4, prop_oneof![
+            (any::<bool>(), gen_::key_seed(), 0u8..5, prop_oneof![
                 4 => Just(String::new()).boxed(),
                 8 => "\\PC{0,30}".boxed(),
                 4 => any::<String>().boxed(),
@@ -381,7 +387,7 @@ pub fn def() -> PropertyDef {
     PropertyDef {
         id: "C01",
         level: "exploration",
-        rule: "proptest cases (back end x purpose x key source x payload encoding suffix {none, non-empty} x payload spec x footer x assertion x seal path {library RNG, scripted draw, caller nonce} x entry point {seal/unseal, encrypt|sign[_with_aad], decrypt|verify[_with_aad]}); oracle = round-trip identity + spec payload length + re-serialisation; a second family of cases uses the typed payload / footer types of the public API (Json<Value>, RegisteredClaims, (), Json<Value> and Json<struct> footers; texts up to 100 KiB so typed footers and payloads cross 8 KiB / 64 KiB); non-trivial iff payload longer than one cipher block, or non-empty footer or assertion, or a parsed (not random()) key; distinct by descriptor hash",
+        rule: "proptest cases (back end x purpose x key source x payload encoding suffix {none, non-empty} x payload spec x footer x assertion x seal path {library RNG, scripted draw, caller nonce} x entry point {seal/unseal, encrypt|sign[_with_aad], decrypt|verify[_with_aad]}); oracle = round-trip identity + spec payload length + re-serialisation; a second family of cases uses the typed payload / footer types of the public API (Json<Value>, RegisteredClaims, (), Json<Value>, Json<struct> and Json<HashMap> footers; texts up to 100 KiB so typed footers and payloads cross 8 KiB / 64 KiB); non-trivial iff payload longer than one cipher block, or non-empty footer or assertion, or a parsed (not random()) key; distinct by descriptor hash",
         assumptions: vec![
             "aws-lc and libsodium draw from their own OS-seeded generators (not scripted); rare signature shapes are reached by volume",
             "payload type is a raw-bytes Payload with SUFFIX \"\" (same header as JSON)",
